@@ -76,25 +76,9 @@ def census(ctx):
     out.append(Obligation("C06.F2 initial state: only StructuredRecord defines `_regex`, as None", [],
                           tm.B(len(ok_def) == 1 and not bad_def), kind="F", text="class-level definitions: %s" % definers,
                           meta=dict(function="census", clause="F2", detail=[list(d) for d in bad_def])))
-    # F4: the typing path keeps no other state between calls.  Escaping stores (pyvc/frames.py) whose target is
-    # reachable from a class object, a module-level name, or -- for the pattern objects of regex.py, which are
-    # themselves cached on the classes -- from `self` outside a constructor, are cross-call state.  The only one
-    # allowed is the per-class pattern cache written by _get_regex (INV_cache above).
-    from pyvc import frames
-    shared = []
-    for rel, mi in sorted(ctx.repo.modules.items()):
-        if rel.endswith(("registry/base.py", "registry/_utils.py", "elabftw.py")) or "/registry/" in rel:
-            continue
-        if rel.endswith("regex.py"):
-            spec = {q: dict(allow_self_rebind=True) for (q, f_, m_) in frames.functions_of(mi) if q.endswith(".__init__")}
-            shared += frames.check_frame(mi, rel, spec, allow_self_rebind=False, ignore_roots=("P*", "?"))
-        else:
-            spec = {"StructuredRecord._get_regex": dict(shapes={"cls._regex"})} if rel.endswith("core/_structured.py") else {}
-            shared += frames.check_frame(mi, rel, spec, ignore_roots=("self", "P*", "?"))
-        shared += frames.memoised(mi, rel)
-    out.append(Obligation("C06.F4 no state shared between typing calls other than the per-class pattern cache", [],
-                          tm.B(not shared), kind="F", text="cross-call stores: %s" % shared,
-                          meta=dict(function="census", clause="F4", detail=shared)))
+    # F4: the typing path keeps no other state between calls (props/_shared.py)
+    from props._shared import typing_state_census
+    out.append(typing_state_census(ctx, "C06", "F4"))
     out.append(Obligation("C06.F3 structure() reads class constants only", [], tm.B(not impure), kind="F",
                           text="impure reads: %s" % impure, meta=dict(function="census", clause="F3", detail=impure)))
     return out
@@ -169,8 +153,10 @@ from moclo.record import CircularRecord
 names = [c.__module__.split(".")[-1] + "." + c.__name__ for c in classes]
 records = json.loads(%(records)r)
 def answers(cls):
+    # the primed histories ask about the records in the opposite order: an answer must not depend on which records
+    # the same class was asked about before either
     out = []
-    for s in records:
+    for s in (records if %(mode)r == "fresh" else records[::-1]):
         e = cls(CircularRecord(Seq(s), id="r"))
         try:
             v = e.is_valid()
@@ -183,7 +169,7 @@ def answers(cls):
                 out.append([True, "raised", repr(ex)])
         else:
             out.append([False])
-    return out
+    return out if %(mode)r == "fresh" else out[::-1]
 mode = %(mode)r
 res = {}
 if mode == "fresh":
@@ -280,6 +266,21 @@ def bounded(ctx):
             inst, _ = gen.instance(s, rng, run=rng.randint(4, 9))
             k = rng.randrange(len(inst))
             records.append(inst[k:] + inst[:k] if rng.random() < 0.5 else inst)
+    # records on which a structure matches at more than one start (two units of the same structure in one plasmid, at
+    # a random rotation): the answer is the leftmost match, whatever was matched before
+    for s in structures[:: max(1, len(structures) // 8)]:
+        a, _ = gen.instance(s, rng, run=rng.randint(4, 7))
+        b, _ = gen.instance(s, rng, run=rng.randint(4, 7))
+        two = a + "ACGTAC" + b + "TTGACA"
+        # ... asked about right after (and, in the reversed histories, right before) a plasmid of the same structure whose
+        # match starts between the two possible starts of `two` (0 and len(a) + 6)
+        c, _ = gen.instance(s, rng, run=rng.randint(4, 7))
+        c = c + "ACCA"
+        r_ = max(1, min(len(c) - 1, (len(a) + 6) // 2))
+        mid = c[-r_:] + c[:-r_]
+        records.extend([mid, two, mid])
+        k = rng.randrange(len(two))
+        records.append(two[k:] + two[:k])
     viol, samples = [], []
     with ThreadPoolExecutor(max_workers=14) as pool:
         fresh_parts = list(pool.map(lambda i: _run_worker(ctx, "fresh", i, records), range(len(classes))))
@@ -323,7 +324,8 @@ def bounded(ctx):
                      "then every other class in declaration order, plus one history in reverse order, so that every ordered "
                      "pair (A before B) occurs in some history; every answer (verdict, overhangs, target) compared with "
                      "the same query issued first in its own fresh interpreter; "
-                     "records = %d seeded instances of the %d distinct structures (random rotation); plus a subclass "
+                     "records = %d seeded instances of the %d distinct structures (random rotation) and plasmids holding two units of a "
+                     "structure (several possible match starts); plus a subclass "
                      "created at run time.  non-trivial = (class, record) accepted in the fresh interpreter" % (
                          len(classes), len(records), len(structures)),
                 bound="86 histories of length 85 covering all ordered class pairs; %d records" % len(records),
